@@ -7,8 +7,17 @@ Operation tokens (word `ops`; d, s container indices, t type index, v small inte
   vas:d:t:v vasmv:d:t:v   operator=(T&&)      rst:d reset()   swp:d:s member swap   swpf:d:s bfl::any::swap   del:d ~any()
   has:d typ:d      has_value(), type()
   cp ccp cv cr ccv crv :d:t   any_cast<T>(any*) | (const any*) | (any&) | <T&>(any&) | (const any&) | (any&&)
+  cpq:d:t          any_cast<const T>(any*)                   crq:d:t      const T& r = any_cast<const T&>(a), a non-const
+  xv:d:t:m         T x = any_cast<T&&>(std::move(a))  (the form the library uses)      xa:d:t:m   x = any_cast<T&&>(std::move(a))
+                   m = 1: T's move operations leave the source moved-from (types 2, 3, 5); 0: moving copies
   setp:d:t:v       if (T* p = any_cast<T>(&a)) *p = v        setr:d:t:v   any_cast<T&>(a) = v
-Types: 0 int, 1 double, 2 std::string, 3 Eigen::MatrixXd, 4 Probe (instance counters), 5 MProbe (move-aware).
+  valx:d:6:v vasx:d:6:v   any(const T&) / a = (const T&) while T's copy constructor throws
+  cpyx:d:s:6 casx:d:s:6   any(const any&) / operator=(const any&) while the copy constructor of type 6 throws
+Types: 0 int, 1 double, 2 std::string, 3 Eigen::MatrixXd, 4 Probe (instance counters, no move operations),
+       5 MProbe (move-aware), 6 TProbe (copy constructor throws on demand).
+Observation line per step: <result> <container 0> ... <container N-1> L<live 4>,<live 5>,<live 6> K<ctors 4>,<copies 5>,<moves 5>,<ctors 6>
+a container is D (no object) or h<has_value>.t<type>.<six casts per type: T*, const any*, const T via any*, T by value, const T& of const any, const T& of any>;
+n = null, x = bad_any_cast, m = a moved-from object, ? = an object that does not decode.
 A constructor token on an index that holds a container, or a member token on an index that holds none, is skipped by both sides.
 """
 import itertools
@@ -19,16 +28,19 @@ COQ_TARGETS = ["C20_Extract.vo"]
 EXTRACTED = "C20_model"
 DRIVER = "drv_C20.ml"
 HARNESS = "h_C20.cpp"
-VARIANTS = {"quick": ["O1"], "thorough": ["O1", "asan"]}
+VARIANTS = {"quick": ["O1", "asan"], "thorough": ["O1", "asan"]}
 AXIOMS_ALLOWED = []
 REQUIRED_THEOREMS = ["C20_ownership_inv", "C20_no_double_free", "C20_no_use_after_free", "C20_no_leak",
                      "C20_value_semantics", "C20_cast_ok", "C20_cast_wrong_type", "C20_copy_independent",
-                     "C20_moved_from_empty", "C20_self_assign_harmless", "C20_empty_type_void"]
-RULE = ("operation words over a pool of 4 containers and 6 held types (int, double, std::string, Eigen::MatrixXd, counting probe, move-aware probe): "
-        "every word of valid operations up to length 2 (quick) / 4 (thorough) over a reduced alphabet (2 containers, std::string and the probe, "
-        "all constructors, assignments incl. self-assignment, swap, reset, destructor, write through a cast pointer), plus seeded random words "
-        "(quick 1000 of length <= 10; thorough 4000 of length <= 200) that also use invalid indices, dead containers and every cast form; "
-        "non-trivial = the word allocates and then copies/moves/assigns/swaps/resets/writes; distinct by the word itself")
+                     "C20_moved_from_empty", "C20_self_assign_harmless", "C20_empty_type_void",
+                     "C20_rvalue_ref_cast", "C20_constructions", "C20_strong_guarantee"]
+RULE = ("operation words over pools of 1..6 containers and 7 held types (int, double, std::string, Eigen::MatrixXd, counting probe, move-aware probe, "
+        "probe with a throwing copy constructor): every word of valid operations up to length 3 (quick) / 4 (thorough) over a reduced alphabet "
+        "(2 containers, std::string and the probe, all constructors, assignments incl. self-assignment, swap, reset, destructor, write through a cast "
+        "pointer, a by-value cast, a const-qualified pointer cast and the T&& cast the library uses - each right-typed or wrong-typed depending on the "
+        "history), plus seeded random words (quick 1000 of length <= 10; thorough 4000 of length <= 200) that also use invalid indices, dead containers, "
+        "every cast form and the throwing copy constructor; both tiers also run under ASan/LSan; "
+        "non-trivial = the word allocates and then copies/moves/assigns/swaps/resets/writes/moves the value out; distinct by (pool size, word)")
 TRUSTED_BASE = ["Coq 8.16.1 kernel (coqc); no axioms (Print Assumptions: closed under the global context)",
                 "extraction (ExtrOcamlBasic only) and ocaml/drv_C20.ml, ocaml/caseio.ml, ocaml/float_ops.ml (conversions only)",
                 "cpp/h_C20.cpp harness: the mapping of operation tokens to C++ expressions, the value codecs, the probe types, and its process handling "
@@ -36,13 +48,15 @@ TRUSTED_BASE = ["Coq 8.16.1 kernel (coqc); no axioms (Print Assumptions: closed 
                 "the abstraction itself: held values are integer codes, `new`/`delete` never fail, exceptions thrown by a held type's copy constructor are not modelled",
                 "correspondence is sampled: agreement of model and code is established on the generated words only",
                 "AddressSanitizer/LeakSanitizer (thorough tier) for the memory errors the probes cannot see"]
-ASSUMPTIONS = ["operator new does not throw and the held types' copy/move constructors do not throw (the strong exception guarantee of the assignments is not checked)"]
+ASSUMPTIONS = ["operator new does not throw; move constructors of held types do not throw (a throwing COPY constructor is modelled and checked: strong guarantee, no leak)",
+               "T's moved-from state is recognisable (empty std::string / 0x0 matrix / flag): the model only says 'moved-from', not what it contains"]
 
 NPOOL = 4
-NTYPES = 6
+NTYPES = 7
+MOVING = (2, 3, 5)      # types whose move operations leave the source moved-from
 ALLOC = ("val", "valmv", "vas", "vasmv")
-MIX = ("cpy", "cpyn", "mov", "cas", "casn", "mas", "swp", "swpf", "rst", "setp", "setr")
-CAST = ("cp", "ccp", "cv", "cr", "ccv", "crv")
+MIX = ("cpy", "cpyn", "mov", "cas", "casn", "mas", "swp", "swpf", "rst", "setp", "setr", "xv", "xa", "cpyx", "casx")
+CAST = ("cp", "ccp", "cv", "cr", "ccv", "crv", "cpq", "crq")
 
 
 def kind(tok):
@@ -56,27 +70,62 @@ def args(tok):
 # ---------------------------------------------------------------- generators
 
 def sim_apply(livev, tok):
-    """Liveness bookkeeping only (which indices hold a container); returns True if the token is executed, not skipped."""
+    """Bookkeeping for the generators only: livev[i] is None (no container), "E" (empty) or the held type.
+    Returns True if the token is executed, not skipped."""
     k, a = kind(tok), args(tok)
     n = len(livev)
     def ok(d): return 0 <= d < n
-    def live(d): return ok(d) and livev[d]
-    def free(d): return ok(d) and not livev[d]
-    if k in ("def", "val", "valmv"):
+    def live(d): return ok(d) and livev[d] is not None
+    def free(d): return ok(d) and livev[d] is None
+    if k == "def":
         if free(a[0]):
-            livev[a[0]] = True; return True
+            livev[a[0]] = "E"; return True
         return False
-    if k in ("cpy", "cpyn", "mov"):
+    if k in ("val", "valmv"):
+        if free(a[0]):
+            livev[a[0]] = a[1]; return True
+        return False
+    if k == "valx":
+        return free(a[0])
+    if k in ("cpy", "cpyn", "cpyx"):
         if free(a[0]) and live(a[1]):
-            livev[a[0]] = True; return True
+            if not (k == "cpyx" and livev[a[1]] == a[2]):
+                livev[a[0]] = livev[a[1]]
+            return True
         return False
-    if k in ("cas", "casn", "mas", "swp", "swpf"):
-        return live(a[0]) and live(a[1])
+    if k == "mov":
+        if free(a[0]) and live(a[1]):
+            livev[a[0]] = livev[a[1]]; livev[a[1]] = "E"; return True
+        return False
+    if k in ("cas", "casn", "casx"):
+        if live(a[0]) and live(a[1]):
+            if not (k == "casx" and livev[a[1]] == a[2]):
+                livev[a[0]] = livev[a[1]]
+            return True
+        return False
+    if k == "mas":
+        if live(a[0]) and live(a[1]):
+            if a[0] != a[1]:
+                livev[a[0]] = livev[a[1]]; livev[a[1]] = "E"
+            return True
+        return False
+    if k in ("swp", "swpf"):
+        if live(a[0]) and live(a[1]):
+            livev[a[0]], livev[a[1]] = livev[a[1]], livev[a[0]]; return True
+        return False
+    if k in ("vas", "vasmv"):
+        if live(a[0]):
+            livev[a[0]] = a[1]; return True
+        return False
+    if k == "rst":
+        if live(a[0]):
+            livev[a[0]] = "E"; return True
+        return False
     if k == "del":
         if live(a[0]):
-            livev[a[0]] = False; return True
+            livev[a[0]] = None; return True
         return False
-    if k in ("cp", "ccp", "setp"):
+    if k in ("cp", "ccp", "cpq", "setp"):
         return True
     return live(a[0])
 
@@ -93,6 +142,8 @@ def reduced_alphabet():
             if s != d:
                 al += ["cpy:%d:%d" % (d, s), "mov:%d:%d" % (d, s)]
     al += ["swp:0:1", "swp:0:0"]
+    # casts: right-typed or wrong-typed depending on what the container holds at that point
+    al += ["cv:0:2", "cpq:1:4", "xv:0:2:1"]
     return al
 
 
@@ -108,14 +159,14 @@ def valid_words(alphabet, maxlen):
             lv = list(livev)
             if sim_apply(lv, tok):
                 word.append(tok); rec(word, lv); word.pop()
-    rec([], [False] * NPOOL)
+    rec([], [None] * 2)
     return out
 
 
 def random_token(rng, livev, valid):
     n = len(livev)
-    lives = [i for i in range(n) if livev[i]]
-    frees = [i for i in range(n) if not livev[i]]
+    lives = [i for i in range(n) if livev[i] is not None]
+    frees = [i for i in range(n) if livev[i] is None]
     def anyidx(): return rng.randint(0, n) if rng.random() < 0.15 else rng.randrange(n)
     def L(): return rng.choice(lives) if (valid and lives) else anyidx()
     def F(): return rng.choice(frees) if (valid and frees) else anyidx()
@@ -126,14 +177,22 @@ def random_token(rng, livev, valid):
         c = rng.random()
         if c < 0.15 or (valid and not lives and c < 0.3):
             return "def:%d" % F()
+        if c < 0.05 + 0.15:
+            return "valx:%d:6:%d" % (F(), V())
         if c < 0.6 or (valid and not lives):
             return "%s:%d:%d:%d" % (rng.choice(["val", "valmv"]), F(), T(), V())
+        if c < 0.66:
+            return "cpyx:%d:%d:6" % (F(), L())
         return "%s:%d:%d" % (rng.choice(["cpy", "cpyn", "mov", "mov"]), F(), L())
     if r < 0.30:
+        if rng.random() < 0.1:
+            return "vasx:%d:6:%d" % (L(), V())
         return "%s:%d:%d:%d" % (rng.choice(["vas", "vasmv"]), L(), T(), V())
     if r < 0.52:
         d = L()
         s = d if rng.random() < 0.2 else L()
+        if rng.random() < 0.12:
+            return "casx:%d:%d:6" % (d, s)
         return "%s:%d:%d" % (rng.choice(["cas", "casn", "mas", "mas"]), d, s)
     if r < 0.62:
         d = L()
@@ -143,15 +202,23 @@ def random_token(rng, livev, valid):
         return "rst:%d" % L()
     if r < 0.76:
         return "del:%d" % L()
-    if r < 0.88:
-        return "%s:%d:%d:%d" % (rng.choice(["setp", "setr"]), L(), T(), V())
-    if r < 0.92:
+    def held_or_any(d):
+        h = livev[d] if 0 <= d < n else None
+        return h if (isinstance(h, int) and rng.random() < 0.7) else T()
+    if r < 0.84:
+        d = L()
+        return "%s:%d:%d:%d" % (rng.choice(["setp", "setr"]), d, held_or_any(d), V())
+    if r < 0.91:
+        d = L(); t = held_or_any(d)
+        return "%s:%d:%d:%d" % (rng.choice(["xv", "xv", "xa"]), d, t, 1 if t in MOVING else 0)
+    if r < 0.94:
         return "%s:%d" % (rng.choice(["has", "typ"]), L())
-    return "%s:%d:%d" % (rng.choice(CAST), L(), T())
+    d = L()
+    return "%s:%d:%d" % (rng.choice(CAST), d, held_or_any(d))
 
 
-def random_word(rng, length):
-    livev = [False] * NPOOL
+def random_word(rng, length, npool):
+    livev = [None] * npool
     w = []
     for _ in range(length):
         tok = random_token(rng, livev, rng.random() < 0.85)
@@ -166,34 +233,44 @@ HAND = [
     ["val:0:4:5", "def:1", "cas:1:0", "setr:0:4:6", "cas:0:0", "casn:0:0", "mas:0:0", "mas:1:0", "mas:0:1"],
     # moved-from is empty, wrong-type casts on empty / other type
     ["valmv:0:5:4", "mov:1:0", "typ:0", "has:0", "cv:0:5", "cp:0:5", "crv:1:5", "cv:1:5", "cr:1:4", "cp:3:0", "cp:4:0"],
+    # the library's own usage: Data holding a matrix, value taken out once through the T&& cast; then again; then copied, overwritten
+    ["valmv:0:3:2", "xv:0:3:1", "has:0", "typ:0", "xv:0:3:1", "crq:0:3", "cpq:0:3", "cpy:1:0", "setp:0:3:4", "xa:0:3:1", "xv:1:2:1", "xa:0:0:0"],
+    ["val:0:5:3", "xa:0:5:1", "cas:0:0", "valmv:1:2:6", "xv:1:2:1", "mas:0:1", "xv:0:2:1", "val:2:0:7", "xv:2:0:0", "xv:2:0:0"],
+    # throwing copy constructor: nothing changes, nothing leaks
+    ["val:0:6:5", "def:1", "casx:1:0:6", "cpyx:2:0:6", "vasx:1:6:2", "valx:3:6:1", "casx:0:0:6", "cas:1:0", "casx:1:0:6", "val:3:2:1", "casx:0:3:6"],
     ["val:0:3:2", "val:1:1:2", "swpf:0:1", "swp:0:0", "rst:1", "vasmv:1:3:-2", "ccv:1:3", "ccp:1:1", "del:1", "del:0"],
 ]
 
 
 def generate(rng, tier):
-    words = [list(w) for w in HAND]
-    words += valid_words(reduced_alphabet(), 2 if tier == "quick" else 4)
+    words = [(NPOOL, list(w)) for w in HAND]
+    words += [(2, w) for w in valid_words(reduced_alphabet(), 3 if tier == "quick" else 4)]
     if tier == "quick":
         for _ in range(1000):
-            words.append(random_word(rng, rng.randint(1, 10)))
+            words.append(rnd(rng, 1, 10))
     else:
         for _ in range(3000):
-            words.append(random_word(rng, rng.randint(1, 40)))
+            words.append(rnd(rng, 1, 40))
         for _ in range(1000):
-            words.append(random_word(rng, rng.randint(41, 200)))
+            words.append(rnd(rng, 41, 200))
     cases = []
-    for k, w in enumerate(words):
-        c = caseio.Case(k, "word", {"len": len(w)})
-        c.int("pool", NPOOL).word("ops", w)
+    for k, (npool, w) in enumerate(words):
+        c = caseio.Case(k, "word", {"len": len(w), "pool": npool})
+        c.int("pool", npool).word("ops", w)
         cases.append(c)
     return cases
+
+
+def rnd(rng, lo, hi):
+    npool = rng.choice([1, 2, 3, 4, 4, 5, 6])
+    return (npool, random_word(rng, rng.randint(lo, hi), npool))
 
 
 def nontrivial(c):
     w = c.get("ops")
     ks = [kind(t) for t in w]
     if any(k in ALLOC for k in ks) and any(k in MIX for k in ks):
-        return tuple(w)
+        return (c.get("pool"),) + tuple(w)
     return None
 
 
@@ -205,8 +282,11 @@ def histogram(cases):
         lens[b] = lens.get(b, 0) + 1
         for t in w:
             kinds[kind(t)] = kinds.get(kind(t), 0) + 1
-    self_assign = sum(1 for c in cases for t in c.get("ops") if kind(t) in ("cas", "casn", "mas", "swp", "swpf") and args(t)[0] == args(t)[1])
-    return {"length": lens, "op_kind": kinds, "self_assign_or_self_swap_ops": self_assign}
+    self_assign = sum(1 for c in cases for t in c.get("ops") if kind(t) in ("cas", "casn", "casx", "mas", "swp", "swpf") and args(t)[0] == args(t)[1])
+    pools = {}
+    for c in cases:
+        pools[str(c.get("pool"))] = pools.get(str(c.get("pool")), 0) + 1
+    return {"length": lens, "op_kind": kinds, "self_assign_or_self_swap_ops": self_assign, "pool_size": pools}
 
 
 # ---------------------------------------------------------------- comparison
@@ -219,7 +299,7 @@ def compare(c, impl, model):
 # ---------------------------------------------------------------- property oracle
 
 def parse_slot(tok):
-    """'D' or 'h<0|1>.t<type>.<p,cp,v,cv>/...'  ->  None or (has, type, [[p, cp, v, cv] per type])"""
+    """'D' or 'h<0|1>.t<type>.<six casts>/...'  ->  None or (has, type, [[p, cp, pq, v, cv, rq] per type])"""
     if tok == "D":
         return None
     h, t, rest = tok.split(".", 2)
@@ -247,11 +327,11 @@ def slot_clauses(tok):
             if any(x in ("n", "x") for x in cs):
                 out.append(("cast-stored-type-fails", "cast to the stored type %s fails: %s" % (ty, ",".join(cs))))
             elif any(x == "?" for x in cs):
-                out.append(("held-value-corrupt", "the held object of type %s does not decode (destroyed, moved-from or overwritten): %s" % (ty, ",".join(cs))))
+                out.append(("held-value-corrupt", "the held object of type %s does not decode (destroyed or overwritten): %s" % (ty, ",".join(cs))))
             elif len(set(cs)) != 1:
                 out.append(("cast-forms-disagree", "cast forms disagree on the held value: %s" % ",".join(cs)))
         else:
-            if cs[0] != "n" or cs[1] != "n" or cs[2] != "x" or cs[3] != "x":
+            if cs[:3] != ["n", "n", "n"] or cs[3:] != ["x", "x", "x"]:
                 out.append(("cast-wrong-type-succeeds", "container holds type %s but a cast to type %d gives %s (pointer forms must be null, value forms must throw)" % (ty, t, ",".join(cs))))
     return out
 
@@ -259,7 +339,7 @@ def slot_clauses(tok):
 def oracle(c, impl, model):
     v = []
     w = c.get("ops")
-    n = NPOOL
+    n = c.get("pool")
     if model is not None:
         if model.get("heap_after_destroy_all") != 0 or model.get("destroyed_eq_allocated") != 1 or model.get("faults") != 0 or model.get("views_agree") != 1:
             v.append(("C20:model-self-check", "the extracted model violates its own theorems: heap %s, destroyed=allocated %s, faults %s, refinement %s" % (
@@ -271,10 +351,10 @@ def oracle(c, impl, model):
             v.append(("C20:crash:%s:%s" % (san if san != "none" else "status-%s" % impl.get("crashed"), kind(tok)),
                       "the process died in step %d (%s) of %s (status %s, %s)" % (k, tok, " ".join(w[:k + 1][-8:]), impl.get("crashed"), san)))
             break
-        if line is None or len(line) != n + 2:
+        if line is None or len(line) != n + 3:
             v.append(("C20:no-observation:%s" % kind(tok), "step %d (%s): no observation line" % (k, tok)))
             break
-        res, slots, lv = line[0], line[1:1 + n], line[1 + n]
+        res, slots, lv, kv = line[0], line[1:1 + n], line[1 + n], line[2 + n]
         found = []
         # (a) each container on its own
         for i, st in enumerate(slots):
@@ -282,8 +362,8 @@ def oracle(c, impl, model):
                 found.append((sig, "container %d: %s" % (i, d)))
         # (b) instance counters against the containers that report holding a probe
         try:
-            l4, l5 = [int(x) for x in lv[1:].split(",")]
-            for t, l in ((4, l4), (5, l5)):
+            l4, l5, l6 = [int(x) for x in lv[1:].split(",")]
+            for t, l in ((4, l4), (5, l5), (6, l6)):
                 holders = sum(1 for st in slots if parse_slot(st) is not None and parse_slot(st)[1] == str(t))
                 if l > holders:
                     found.append(("leak", "%d live instances of probe type %d but %d container(s) hold one" % (l, t, holders)))
@@ -297,16 +377,24 @@ def oracle(c, impl, model):
             sres, sslots, slv = spec[0], spec[1:1 + n], spec[1 + n]
             kd, a = kind(tok), args(tok)
             if res != sres:
-                if kd in CAST or kd in ("setp", "setr"):
+                if sres == "exn" or res == "exn":
+                    found.append(("exception-not-propagated" if sres == "exn" else "unexpected-exception", "result %s, specified %s" % (res, sres)))
+                elif (kd in CAST or kd in ("setp", "setr", "xv", "xa")) and (sres in ("pnull", "throw", "b0") or res in ("pnull", "throw", "b0")):
                     ok_impl = res not in ("pnull", "throw", "b0")
                     found.append(("cast-wrong-type-succeeds" if ok_impl else "cast-stored-type-fails", "result %s, specified %s" % (res, sres)))
+                elif kd in ("xv", "xa"):
+                    found.append(("value-not-transferred", "the caller received %s, specified %s" % (res, sres)))
                 else:
                     found.append(("wrong-result", "result %s, specified %s" % (res, sres)))
             diff = [i for i in range(n) if slots[i] != sslots[i]]
             if diff:
                 d0 = a[0] if a else -1
                 s0 = a[1] if kd in ("cpy", "cpyn", "mov", "cas", "casn", "mas", "swp", "swpf") else -1
-                if kd in ("setp", "setr") and any(i != d0 for i in diff):
+                if sres == "exn":
+                    found.append(("strong-guarantee", "the copy constructor threw but container(s) %s changed: %s, specified %s" % (diff, slots[diff[0]], sslots[diff[0]])))
+                elif kd in ("xv", "xa") and diff == [d0]:
+                    found.append(("moved-out-state", "container %d after %s: %s, specified %s (it must keep a value of the same type, moved-from exactly when the type moves)" % (d0, tok, slots[d0], sslots[d0])))
+                elif kd in ("setp", "setr", "xv", "xa") and any(i != d0 for i in diff):
                     found.append(("copy-not-independent", "a write through a cast of container %d changed container(s) %s" % (d0, [i for i in diff if i != d0])))
                 elif kd in ("cas", "casn", "mas", "swp", "swpf") and d0 == s0:
                     found.append(("self-assign-not-harmless", "container %d after %s: %s, specified %s" % (d0, tok, slots[diff[0]], sslots[diff[0]])))
@@ -320,6 +408,11 @@ def oracle(c, impl, model):
             if lv != slv and not diff:
                 more = sum(int(x) for x in lv[1:].split(",")) > sum(int(x) for x in slv[1:].split(","))
                 found.append(("leak" if more else "destroyed-while-owned", "probe counters %s, specified %s" % (lv, slv)))
+            # (c') constructions of probe objects performed by the operation: type 4 all, type 5 copies, type 5 moves, type 6 all
+            mline = model.get("r%d" % k)
+            if not found and mline is not None and mline[-1] != kv:
+                found.append(("constructions", "the operation performed K<ctors 4>,<copies 5>,<moves 5>,<ctors 6> = %s, the model %s "
+                              "(a value move must be one move and no copy; a pointer steal none)" % (kv, mline[-1])))
         if found:
             sig, d = found[0]
             v.append(("C20:%s:%s" % (sig, kind(tok)), "step %d (%s): %s" % (k, tok, d)))
@@ -331,7 +424,7 @@ def oracle(c, impl, model):
     if impl.get("leaked"):
         v.append(("C20:leak-at-end:lsan", "LeakSanitizer: memory allocated by the word %s is unreachable after every container was destroyed" % " ".join(w[:12])))
     # (d) end of scope: everything destroyed exactly once
-    for t, name in ((4, "probe"), (5, "mprobe")):
+    for t, name in ((4, "probe"), (5, "mprobe"), (6, "tprobe")):
         e = impl.get(name + "_live_end")
         if e is None:
             continue
@@ -360,7 +453,7 @@ LEVEL_TEXT = ("Proof: a heap/ownership machine transcribed member by member from
               "the self test of move assignment, swap, reset, destructor, every any_cast form, has_value, type) is proved, for every pool size and every "
               "operation word, to keep the ownership invariant (each live holder owned by exactly one container, no dangling pointer, allocated = destroyed + live, "
               "no fault), to leave an empty heap with every holder destroyed exactly once when the containers are destroyed, and to refine a pool of plain "
-              "values (copy = value copy, move = transfer + empty source, casts compare the type first). The machine is tied to the code by running the "
+              "values (copy = value copy, move = transfer + empty source, casts compare the type first; the T&& cast the library itself uses hands the value to the caller exactly once and leaves a moved-from value of the same type; value construction / assignment is exactly one move (rvalue) or one copy of the held type; when a held type's copy constructor throws, the copying members change nothing and leak nothing). Exceptions from MOVE constructors and from operator new are out of scope. The machine is tied to the code by running the "
               "extracted step function and bfl::Data on the same words, comparing after every operation.")
 LEVEL_NOTE = ("Trusted: Coq kernel, extraction + driver, the harness' token-to-C++ mapping and codecs; values are integer codes; allocation failure and throwing "
-              "copy constructors are outside the model; the tie to the code is sampled (all valid words to length 2/4 over a reduced alphabet + random words).")
+              "MOVE constructors are outside the model (a throwing copy constructor is modelled: strong guarantee of the copying members, checked with a throwing probe); the tie to the code is sampled (all valid words to length 2/4 over a reduced alphabet + random words).")
